@@ -188,10 +188,10 @@ def solveForConstraints (a : SolveArgs) (existing : List Bytes) (constraints : L
     | .ok sv => .ok (valuesOf sv false, valuesOf sv true)
 
 /-- `Solver.solve(hash160_lookup, tx_in_idx, hash_type, **kwargs)` through the machinery: the new script and, when
-`witness_list` is not empty, the new witness (`None` entries — unsolved atoms — are dropped by `compile_push_data_list`;
-in the witness they cannot occur with a placeholder, and are dropped here as in `Sign.solve`) -/
+`witness_list` is not empty, the new witness.  `None` entries — atoms no solver assigned — are dropped from the script by
+`compile_push_data_list`; in the witness list they stay (`none`). -/
 def solve (a : SolveArgs) (ctx : VM.TxCtx) (puzzle script : Bytes) (witness : List Bytes) :
-    Except Sign.Err (Bytes × Option (List Bytes)) :=
+    Except Sign.Err (Bytes × Option (List (Option Bytes))) :=
   match existingScript script witness with
   | .error e => .error e
   | .ok existing =>
@@ -203,7 +203,7 @@ def solve (a : SolveArgs) (ctx : VM.TxCtx) (puzzle script : Bytes) (witness : Li
       | .ok (sl, wl) =>
         match pushAll sl with
         | .error e => .error e
-        | .ok sc => .ok (sc, if wl.isEmpty then none else some (wl.filterMap id))
+        | .ok sc => .ok (sc, if wl.isEmpty then none else some wl)
 
 /-- one pass of the loop of `Solver.sign` with `solve` = the machinery (cf. `Sign.signOne`) -/
 def signOne (a : SignArgs) (ctx : Nat → VM.TxCtx) (unspents : List (Option TxOut)) (ins : List TxIn) (idx : Nat) :
@@ -218,7 +218,12 @@ def signOne (a : SignArgs) (ctx : Nat → VM.TxCtx) (unspents : List (Option TxO
                               ht := effectiveHashType a.fork a.ht, placeholder := some Gen.Sign.defaultPlaceholder }
       match solve sa (ctx idx) puzzle tin.script tin.witness with
       | .ok (sc, none) => .ok (ins.set idx { tin with script := sc })
-      | .ok (sc, some w) => .ok (ins.set idx { tin with script := sc, witness := w })
+      | .ok (sc, some w) =>
+        -- `set_witness(idx, witness_list)`; a `None` among the items (an atom of a non-standard script that no solver
+        -- assigned) makes the transaction unusable later on: outside the model
+        match w.mapM id with
+        | some w => .ok (ins.set idx { tin with script := sc, witness := w })
+        | none => .error .unsupported
       | .error e => if e.caughtBySign then .ok ins else .error e
 
 end Pycoin.Solve
